@@ -5,6 +5,7 @@ package c18
 import (
 	"bytes"
 	"fmt"
+	"gitlab.com/gomidi/midi/v2/zverif/noise"
 	"testing"
 
 	"gitlab.com/gomidi/midi/v2/mmc"
@@ -291,11 +292,26 @@ func runGoTo(c GoToCase) (res ev.Result) {
 			x[i] ^= 0xFF
 		}
 	})
-	if p := ev.Try(func() { got = g.SysEx(); err = back.Parse(append([]byte{}, got...)) }); p != "" {
+	var sib []byte
+	sibDev := (c.Device + 1) % 128
+	if p := ev.Try(func() {
+		got = g.SysEx()
+		// the message is held while a second machine is sent to the same position and other
+		// messages are built; only then is it looked at
+		sg := g
+		sg.DeviceID = sibDev
+		sib = sg.SysEx()
+		noise.Between()
+		err = back.Parse(got)
+	}); p != "" {
 		res.Violation = p
 		return
 	}
 	res.Nontrivial = c.Hour|c.Minute|c.Second|c.Frame|c.SubFrame != 0
+	if wantSib := append(append([]byte{}, want[:2]...), append([]byte{sibDev}, want[3:]...)...); !bytes.Equal(sib, wantSib) {
+		res.Violation = fmt.Sprintf("GoTo.SysEx() for device %d directly after the same position for device %d = % X, want % X", sibDev, c.Device, sib, wantSib)
+		return
+	}
 	if !bytes.Equal(got, want) {
 		res.Violation = fmt.Sprintf("GoTo.SysEx() = % X, want % X", got, want)
 	} else if err != nil {
@@ -307,7 +323,7 @@ func runGoTo(c GoToCase) (res ev.Result) {
 }
 
 var gotoCheck = ev.NewCheck("C18", "mmc-goto",
-	"rapid: mmc.GoTo with all six fields over 0..127; oracle = fixed 13-byte layout and Parse(SysEx())==value; non-trivial = some time field != 0",
+	"rapid: mmc.GoTo with all six fields over 0..127; oracle = fixed 13-byte layout and Parse(SysEx())==value, the message being held while the same position is built for another device id (which must carry its own id) and further messages are built; non-trivial = some time field != 0",
 	func(t *rapid.T) GoToCase {
 		return GoToCase{b7().Draw(t, "dev"), b7().Draw(t, "h"), b7().Draw(t, "m"), b7().Draw(t, "s"), b7().Draw(t, "f"), b7().Draw(t, "sf")}
 	}, runGoTo)
@@ -329,7 +345,14 @@ func runMsg(c MsgCase) (res ev.Result) {
 			x[i] ^= 0xFF
 		}
 	})
-	if p := ev.Try(func() { got = m.SysEx(); err = back.Parse(append([]byte{}, got...)) }); p != "" {
+	if p := ev.Try(func() {
+		got = m.SysEx()
+		// the message is held while further commands are built (a batch); only then is it looked at
+		_ = mmc.Message{DeviceID: (c.Device + 1) % 128, Command: mmc.Command(c.Command%0x3F + 1)}.SysEx()
+		_ = mmc.Message{DeviceID: c.Device, Command: mmc.Command((c.Command+7)%0x3F + 1)}.SysEx()
+		noise.Between()
+		err = back.Parse(got)
+	}); p != "" {
 		res.Violation = p
 		return
 	}
@@ -345,7 +368,7 @@ func runMsg(c MsgCase) (res ev.Result) {
 }
 
 var msgCheck = ev.NewCheck("C18", "mmc-message",
-	"exhaustive: mmc.Message for device ids 1..127 x single-byte commands 0x01..0x3F; oracle = fixed 6-byte layout and Parse(SysEx())==value; every case non-trivial and distinct by construction",
+	"exhaustive: mmc.Message for device ids 1..127 x single-byte commands 0x01..0x3F; oracle = fixed 6-byte layout and Parse(SysEx())==value, the message being held while further commands are built; every case non-trivial and distinct by construction",
 	nil, runMsg)
 
 func TestEnumMMCMessage(t *testing.T) {
